@@ -81,6 +81,8 @@ class World:
         f = self.real.mods[mod].__dict__[fn]
         tick.reset()
         try:
+            if style == "load":
+                return ("ok", dds.load(path), [])
             if style == "call":
                 v = f(*args, **kwargs)
             elif style == "eval":
@@ -95,8 +97,10 @@ class World:
         finally:
             api._eval_ctx = None
 
-    def run_plain(self, args=(), kwargs=None, entry=None, path=None):
+    def run_plain(self, args=(), kwargs=None, entry=None, path=None, style=None):
         kwargs = kwargs or {}
+        if style == "load":
+            return ("ok", self.twin.plain.load(path), [])
         mod, fn = entry or self.t.entry
         f = self.twin.mods[mod].__dict__[fn]
         tick.reset()
